@@ -219,3 +219,12 @@ func Run(t *testing.T, harness func()) {
 	}
 	fmt.Println("VRT-HARNESS-DONE")
 }
+
+// MutexLocked reports whether m is held right now.
+func MutexLocked(m *sync.Mutex) bool {
+	if m.TryLock() {
+		m.Unlock()
+		return false
+	}
+	return true
+}
